@@ -53,6 +53,7 @@ type c19Recon struct {
 	collectNext int
 	ackcap      int
 	window      []int // chunks put into the output channel at shutdown for takes that follow the stop
+	stopSeq     int   // trace sequence number of the stop request of this generation
 }
 
 const (
@@ -204,6 +205,14 @@ func (rc *c19Recon) ensureStop(evIdx int) {
 	rc.emit(23)
 }
 
+// drainWindow: what is left in the closed output channel is saved by the feeder
+func (rc *c19Recon) drainWindow() {
+	for _, w := range rc.window {
+		rc.emit(11, b2i(rc.afterFiles[rc.chunks[w].ID]))
+	}
+	rc.window = nil
+}
+
 func (rc *c19Recon) resolvePending() {
 	// the chunk in phase cpSent reached ackerChan
 	if rc.phase == cpSent {
@@ -247,12 +256,17 @@ func (rc *c19Recon) ackerTake() {
 func (rc *c19Recon) endSession(evIdx int, stopping bool) {
 	switch rc.phase {
 	case cpSent:
-		// ambiguous: did the chunk reach ackerChan before the select saw stop / ackerEnded?
-		rc.ambSeen++
-		if rc.ambSeen <= rc.ambQueued {
-			rc.resolvePending()
-			rc.endSession(evIdx, stopping)
-			return
+		// without a stop the session can only have ended here because the select after the send took
+		// ackerEnded (a queued chunk would leave the sender waiting for the next chunk, and the session would
+		// end with a failed send or ping, which is observed).  With a stop it is ambiguous: did the chunk
+		// reach ackerChan before the select saw the stop?
+		if stopping {
+			rc.ambSeen++
+			if rc.ambSeen <= rc.ambQueued {
+				rc.resolvePending()
+				rc.endSession(evIdx, stopping)
+				return
+			}
 		}
 		if !stopping {
 			if rc.acker != 2 {
@@ -283,6 +297,7 @@ func (rc *c19Recon) endSession(evIdx int, stopping bool) {
 			return
 		}
 		rc.ensureStop(evIdx)
+		rc.drainWindow()
 		rc.emit(24)
 		rc.phase = cpCollect
 		rc.collectNext = 0
@@ -346,10 +361,10 @@ func (rc *c19Recon) toFinal(evIdx int) {
 }
 
 // c19Reconstruct returns the zargs tail (configuration, chunk table, events) of the kind-2 case.
-func c19Reconstruct(po *c19PipeObs, params e2eParams, ambQueued int) (*c19Recon, []int64) {
+func c19Reconstruct(po *c19PipeObs, params e2eParams, ambQueued int, stopSeq int) (*c19Recon, []int64) {
 	chunks, index, nrec := c19BuildChunks(po, params.QueueLen)
 	rc := &c19Recon{po: po, chunks: chunks, index: index, nrec: nrec, unloaded: map[int]bool{}, pmap: map[int]bool{},
-		last: -1, acker: 2, firstSend: map[int]int{}, afterFiles: map[string]bool{}, closedConn: map[int]bool{}, ambQueued: ambQueued, ackcap: params.AckPending}
+		last: -1, acker: 2, firstSend: map[int]int{}, afterFiles: map[string]bool{}, closedConn: map[int]bool{}, ambQueued: ambQueued, ackcap: params.AckPending, stopSeq: stopSeq}
 	for _, f := range po.After {
 		rc.afterFiles[f.ID] = true
 	}
@@ -444,8 +459,19 @@ func c19Reconstruct(po *c19PipeObs, params e2eParams, ambQueued int) (*c19Recon,
 					break
 				}
 				if !rc.stopDone {
-					rc.moveToWindow(ch)
-				} else {
+					head := rc.nextAccept
+					if len(rc.queue) > 0 {
+						head = rc.queue[0]
+					}
+					if head == ch || e.Seq < rc.stopSeq {
+						rc.moveToWindow(ch)
+					} else {
+						// taken after the stop request and not the oldest queued chunk: the output channel was
+						// already closed and the feeder's saveEverything took the older chunks out of it
+						rc.ensureStop(i - 1)
+					}
+				}
+				if rc.stopDone {
 					// after the stop the feeder's saveEverything and the consumer drain the output channel together
 					for len(rc.window) > 0 && rc.window[0] != ch {
 						rc.emit(11, b2i(rc.afterFiles[rc.chunks[rc.window[0]].ID]))
@@ -540,10 +566,7 @@ func c19Reconstruct(po *c19PipeObs, params e2eParams, ambQueued int) (*c19Recon,
 			if len(rc.left) > 0 {
 				rc.fail("consumer finished with %d leftovers not handed back", len(rc.left))
 			}
-			for _, w := range rc.window {
-				rc.emit(11, b2i(rc.afterFiles[rc.chunks[w].ID]))
-			}
-			rc.window = nil
+			rc.drainWindow()
 			rc.emit(25)
 			rc.phase = cpStopped
 		}
